@@ -15,7 +15,7 @@ from claripy.backends.backend_vsa.errors import ClaripyVSAError
 from claripy.errors import BackendError
 from claripy.operations import backend_operations_vsa_compliant, expression_set_operations
 
-from .bool_result import BoolResult, FalseResult, TrueResult
+from .bool_result import BoolResult, FalseResult, MaybeResult, TrueResult
 from .discrete_strided_interval_set import DiscreteStridedIntervalSet
 from .strided_interval import StridedInterval
 from .valueset import ValueSet
@@ -76,6 +76,24 @@ class BackendVSA(Backend):
         self._op_raw["__xor__"] = self._op_xor
         self._op_raw["__and__"] = self._op_and
         self._op_raw["__mod__"] = self._op_mod
+        self._op_raw["__eq__"] = self._op_eq
+        self._op_raw["__ne__"] = self._op_ne
+
+    @staticmethod
+    def _op_eq(a, b):
+        # BoolResult.__eq__ compares the abstract values as Python objects (Maybe == Maybe is True); the `==` of two
+        # Booleans is their equivalence, which is unknown as soon as one of them is
+        if isinstance(a, BoolResult) and isinstance(b, bool | BoolResult) or isinstance(b, BoolResult) and isinstance(a, bool):
+            if BoolResult.is_maybe(a) or BoolResult.is_maybe(b):
+                return MaybeResult()
+            return TrueResult() if BoolResult.is_true(a) == BoolResult.is_true(b) else FalseResult()
+        return a == b
+
+    @staticmethod
+    def _op_ne(a, b):
+        if isinstance(a, BoolResult) and isinstance(b, bool | BoolResult) or isinstance(b, BoolResult) and isinstance(a, bool):
+            return ~BackendVSA._op_eq(a, b)
+        return a != b
 
     @staticmethod
     def _op_add(*args):
